@@ -42,10 +42,11 @@ def run(ctx, mode):
             nshapes = len(shapes)
             env["VERIF_VECTORS"] = vec
             env.update({"VERIF_N_SWEEP": 4 if ctx.quick() else 40, "VERIF_N_LTKEY": 30 if ctx.quick() else 300,
-                        "VERIF_N_REFUSE": 20 if ctx.quick() else 200})
+                        "VERIF_N_REFUSE": 20 if ctx.quick() else 200, "VERIF_N_LENSWEEP": 4 if ctx.quick() else 8})
         else:
             env.update({"VERIF_N_FP": 12 if ctx.quick() else 120, "VERIF_N_BURST": 40 if ctx.quick() else 200,
-                        "VERIF_N_FPANY": 400 if ctx.quick() else 6000})
+                        "VERIF_N_FPANY": 400 if ctx.quick() else 6000, "VERIF_N_LENSWEEP": 4 if ctx.quick() else 16,
+                        "VERIF_LENSWEEP_ALL": 0 if ctx.quick() else 1})
     tagsets = [("verif",)] if ctx.quick() or rin is not None else [("verif",), ("verif", "debug")]
     total = 0
     for tags in tagsets:
@@ -65,8 +66,10 @@ def run(ctx, mode):
                         "StunAuth reads RFC 5389 s15.4/s15.5 as the property text does (first attribute of the type; CRC over everything before the last 8 raw bytes)"]
     if mode == "C04":
         rule = ("TLC-enumerated shapes (attributes before/after the MAC x 10 MAC variants x tails {none, second MI, FINGERPRINT} x 7 key classes), "
-                "each checked under the signing key, a random key and a one-bit-different key; exhaustive single-bit sweeps of signed messages; long-term keys; refusal after FINGERPRINT")
+                "each checked under the signing key, a random key and a one-bit-different key; exhaustive single-bit sweeps of signed messages; long-term keys; refusal after FINGERPRINT; "
+                "body lengths on both sides of every multiple of 256 (header-length carry), signed and checked with and without attributes after the MAC")
     else:
         rule = ("fingerprinted messages (with/without MESSAGE-INTEGRITY), every single-bit flip of each (exhaustive per message), random bursts <= 32 bits, "
-                "arbitrary decodable messages with FINGERPRINT attributes of any length/position and trailing bytes")
+                "arbitrary decodable messages with FINGERPRINT attributes of any length/position and trailing bytes; body lengths on both sides of every multiple of 256 "
+                "(header-length carry; every multiple of 4 up to 4112 in the thorough tier), library-written and reference-written fingerprints")
     return vlib.finish(ctx, traces_validated=total, rule=rule)
